@@ -10,7 +10,7 @@ use super::{
 use crate::{
     armor::{BlockType, DearmorOptions},
     composed::{message::Message, shared::is_binary, Edata, Esk, SignaturePacket},
-    errors::{bail, format_err, unimplemented_err, Result},
+    errors::{bail, format_err, unimplemented_err, Error, Result},
     packet::{ProtectedDataConfig, SymEncryptedProtectedDataConfig},
     parsing_reader::BufReadParsing,
     types::{PkeskVersion, SkeskVersion, Tag},
@@ -98,6 +98,7 @@ impl<'a> MessageParser<'a> {
                                 packet.packet_header(),
                                 &mut packet,
                             )?;
+                            ensure_body_consumed(&mut packet)?;
                             self.messages.push(SignaturePacket::Signature { signature });
                             // Keep original is_nested - the outer Signed message inherits it.
                             self.current = MessageParserState::Start {
@@ -115,6 +116,7 @@ impl<'a> MessageParser<'a> {
                                 packet.packet_header(),
                                 &mut packet,
                             )?;
+                            ensure_body_consumed(&mut packet)?;
                             self.messages.push(SignaturePacket::Ops { signature });
                             // Keep original is_nested - the outer Signed message inherits it.
                             self.current = MessageParserState::Start {
@@ -205,6 +207,7 @@ impl<'a> MessageParser<'a> {
 
         if tag == Tag::SymKeyEncryptedSessionKey || tag == Tag::PublicKeyEncryptedSessionKey {
             let esk = Esk::try_from_reader(&mut packet)?;
+            ensure_body_consumed(&mut packet)?;
             esks.push(esk);
         } else {
             // this message consists of just a bare encryption container
@@ -229,6 +232,7 @@ impl<'a> MessageParser<'a> {
             match tag {
                 Tag::SymKeyEncryptedSessionKey | Tag::PublicKeyEncryptedSessionKey => {
                     let esk = Esk::try_from_reader(&mut packet)?;
+                    ensure_body_consumed(&mut packet)?;
                     esks.push(esk);
                     packets = crate::packet::PacketParser::new(packet.into_inner());
                 }
@@ -283,6 +287,18 @@ impl<'a> MessageParser<'a> {
             }
         }
     }
+}
+
+/// The packet must not contain more data than its parser has used, as in `Packet::from_reader`.
+///
+/// Without this, `into_inner` drops the left over octets that are buffered already, and
+/// whatever follows in the packet body is read as the next packets of the message.
+fn ensure_body_consumed<R: BufRead>(packet: &mut PacketBodyReader<R>) -> Result<()> {
+    let size = packet.drain()?;
+    if size > 0 {
+        return Err(Error::PacketTooLarge { size });
+    }
+    Ok(())
 }
 
 /// Drop PKESK and SKESK with versions that are not aligned with the encryption container
